@@ -440,11 +440,30 @@ func genKey(r *hx.Rand) string {
 	return otherKeys[r.Intn(len(otherKeys))]
 }
 
+// tags whose VALUES real OSM data uses to steer ingest-like logic (areas, linear features, directions, relation
+// types on ways, empty values); none of them may change what a way or relation becomes
+var semantic = []osm.Tag{
+	{Key: "area", Value: "no"}, {Key: "area", Value: "yes"}, {Key: "area", Value: ""},
+	{Key: "type", Value: "multipolygon"}, {Key: "type", Value: "boundary"}, {Key: "type", Value: "route"},
+	{Key: "highway", Value: "pedestrian"}, {Key: "highway", Value: "residential"}, {Key: "highway", Value: "no"},
+	{Key: "building", Value: "yes"}, {Key: "building", Value: "no"}, {Key: "oneway", Value: "yes"}, {Key: "oneway", Value: "-1"},
+	{Key: "natural", Value: "coastline"}, {Key: "barrier", Value: "fence"}, {Key: "boundary", Value: "administrative"},
+	{Key: "landuse", Value: ""}, {Key: "name", Value: ""}, {Key: "layer", Value: "-1"}, {Key: "tunnel", Value: "yes"},
+	{Key: "waterway", Value: "riverbank"}, {Key: "indoor", Value: "room"}, {Key: "closed", Value: "no"},
+}
+
 func genTags(r *hx.Rand, max int) osm.Tags {
 	n := r.Intn(max + 1)
 	var ts osm.Tags
 	for i := 0; i < n; i++ {
-		ts = append(ts, osm.Tag{Key: genKey(r), Value: values[r.Intn(len(values))]})
+		if r.Chance(2, 5) {
+			ts = append(ts, semantic[r.Intn(len(semantic))])
+		} else {
+			ts = append(ts, osm.Tag{Key: genKey(r), Value: values[r.Intn(len(values))]})
+		}
+	}
+	if max > 0 && r.Chance(1, 8) { // exactly one semantic tag and nothing else
+		ts = osm.Tags{semantic[r.Intn(len(semantic))]}
 	}
 	return ts
 }
@@ -826,6 +845,21 @@ func main() {
 			in.nodes = square([4]int64{1, 2, 3, 4}, 10, 20)
 			in.ways = []osm.Way{{ID: 20, Nodes: []osm.NodeID{1, 2, 3, 4, 1}}, {ID: 11, Nodes: []osm.NodeID{1, 3}, Tags: osm.Tags{{Key: "highway", Value: "path"}}}}
 			in.relations = []osm.Relation{{ID: 20, Members: []osm.Member{{Type: osm.ElementTypeWay, ID: 11, Role: ""}}, Tags: osm.Tags{{Key: "type", Value: "route"}}}}
+			run(c, in)
+			// seeded C29-5: a closed way tagged exactly area=no (and others with tags that look like they should
+			// matter) is still an area carrying the way's tags, and relation members point at it
+			in = &input{wf: true}
+			in.nodes = square([4]int64{1, 2, 3, 4}, 48.1, 11.5)
+			in.ways = []osm.Way{
+				{ID: 40, Nodes: []osm.NodeID{1, 2, 3, 4, 1}, Tags: osm.Tags{{Key: "area", Value: "no"}}},
+				{ID: 41, Nodes: []osm.NodeID{1, 2, 3, 1}, Tags: osm.Tags{{Key: "highway", Value: "pedestrian"}, {Key: "area", Value: "no"}, {Key: "type", Value: "multipolygon"}}},
+				{ID: 42, Nodes: []osm.NodeID{2, 3, 4, 2}, Tags: osm.Tags{{Key: "natural", Value: "coastline"}, {Key: "oneway", Value: "yes"}}},
+				{ID: 43, Nodes: []osm.NodeID{1, 3}, Tags: osm.Tags{{Key: "area", Value: "yes"}, {Key: "type", Value: "multipolygon"}}},
+			}
+			in.relations = []osm.Relation{
+				{ID: 50, Members: []osm.Member{{Type: osm.ElementTypeWay, ID: 40, Role: "outer"}, {Type: osm.ElementTypeWay, ID: 41, Role: "inner"}}, Tags: osm.Tags{{Key: "type", Value: "multipolygon"}, {Key: "area", Value: "no"}}},
+				{ID: 51, Members: []osm.Member{{Type: osm.ElementTypeWay, ID: 40, Role: ""}, {Type: osm.ElementTypeWay, ID: 43, Role: ""}, {Type: osm.ElementTypeRelation, ID: 50, Role: ""}}, Tags: osm.Tags{{Key: "type", Value: "route"}, {Key: "area", Value: "no"}}},
+			}
 			run(c, in)
 			// fixed (fixes/C29-reserved-geometry-keys.patch): OSM tags keyed point / path. Before the fix the open
 			// way 18 (point=yes) was a "point" of length 1 for ValidatePath and missing from the world; the
